@@ -245,13 +245,25 @@ SendReady(t) ==
      \/ Len(sendQ[call[t].p]) < sqCap
      \/ sqCap = 0 /\ txHold[call[t].p] = NULL /\ call[t].p \in pipes
      \/ call[t].due >= 0 /\ now >= call[t].due
-\* The receive queue length (RESPONDENT) is changed while nothing is queued or held by a receiver (the drivers
-\* change it only then).  A Recv that is waiting keeps the deadline it started with.
+\* The receive queue length (RESPONDENT) is changed: a new, empty queue replaces the old one.  What was queued
+\* stays behind in the old queue, which nobody reads any more (lost); a message a receiver goroutine holds because
+\* the old queue was full is kept and goes into the new queue; a Recv that is waiting keeps the deadline it
+\* started with and goes on waiting on the new queue.  No connection is touched.
+\* (As the code has it: the loop of a waiting RecvMsg starts over when the queue is replaced and runs its entry
+\* region again, which forgets what the context was about to answer.  That only shows when a second Recv is
+\* parked on a context whose first Recv has already returned a survey - the statement leaves overlapping Recvs on
+\* one context open, so this is modelled, not reported.)
+WaitingCtx == {call[t].c : t \in {x \in Thread : call[x] # NULL /\ call[x].op = "recv"}}
 SetRQ(n) ==
-  /\ n >= 0 /\ recvQ = <<>> /\ \A p \in Pipe : rxHold[p] = NULL
+  /\ n >= 0
   /\ rqCap' = n
-  /\ UNCHANGED <<opt, ttl, sqCap, now, sclosed, pipes, pclosed, rxHold, recvQ, sendQ, txHold,
-                 cclosed, recvWait, backtrace, recvPipe, call, timers, arrived, taken, sent>>
+  /\ recvQ' = <<>>
+  /\ backtrace' = [c \in Ctx |-> IF c \in WaitingCtx /\ ~cclosed[c] THEN NULL ELSE backtrace[c]]
+  /\ recvPipe' = [c \in Ctx |-> IF c \in WaitingCtx /\ ~cclosed[c] THEN NULL ELSE recvPipe[c]]
+  /\ UNCHANGED <<opt, ttl, sqCap, now, sclosed, pipes, pclosed, rxHold, sendQ, txHold, cclosed, recvWait,
+                 call, timers, arrived, taken, sent>>
+\* queue lengths the model checker tries (none unless a configuration overrides this)
+RQChoices == {}
 
 CanInternal ==
   \/ \E t \in Thread : RecvReady(t) \/ SendReady(t)
@@ -276,6 +288,7 @@ Next ==
        \/ SendHandOver(t)
   \/ \E c \in Ctx, res \in {"ok", "ErrClosed"} : CtxClose(c, res)
   \/ \E res \in {"ok", "ErrClosed"} : SockClose(res)
+  \/ \E n \in RQChoices : ~IsRep /\ n # rqCap /\ SetRQ(n)
 
 Spec == Init /\ [][Next]_vars
 
